@@ -22,7 +22,9 @@ if os.path.isdir(demo):
             dst = os.path.join(d, rel + (".txt" if fn.endswith(".go") or fn in ("go.mod", "go.sum") else ""))
             os.makedirs(os.path.dirname(dst), exist_ok=True)
             shutil.copy(os.path.join(root, fn), dst)
-json.dump({"id": sid, "breaks_property": prop, "needs_to_manifest": needs, "caught_by": caught,
+import subprocess
+base = os.environ.get("SEED_BASE") or subprocess.run(["git","-C","/repo","rev-parse","--short","HEAD"],capture_output=True,text=True).stdout.strip()
+json.dump({"id": sid, "base_commit": base, "breaks_property": prop, "needs_to_manifest": needs, "caught_by": caught,
            "what_i_ran": ran or "confirm_seed.sh (scratch worktree /tmp/confirm_wt: git apply; go build ./...; go test ./... same as baseline; demo fails with the change, passes without) and seeded_eval.sh (git -C /repo apply; templvet quick+thorough; git -C /repo checkout -- .)",
            "source": "written by an independent sub-agent that saw only the property text and its own worktree"}, open(os.path.join(d, "meta.json"), "w"), indent=1)
 print("kept", d)
